@@ -81,6 +81,8 @@ var c04Seq = []string{
 	"F.Arr[0] = F.Arr[1]", "F.Arr[1] = F.Arr[0]", "F.Arr[F.K] = 5", "F.K = 1", `F.M["a"] = F.M["b"]`, `F.M["b"] = F.I`,
 	"F.P.V = F.I", "F.I = F.P.V", "F.P = F.P.Q", "F.P.V = 3", "J.n = J.o.n", "J.o.n = F.I", "N = N + F.I", "F.I = N",
 	`Name = Name + "y"`, "N = F.I", "N = F.Arr[0]", "Name = F.S", "F.I2 = N", "F.S = Name", "N = F.P.V", "F.B = !F.B", "F.B = F.I > 1", "F.U = F.I", "F.I -= 1", "F.I *= 2", "F.In = F.Arr[F.K]", `F.KS = "b"`, "F.I2 = F.M[F.KS]",
+	// the same operands in both orders (commutative for numbers, not for text)
+	"F.S = F.S + F.KS", "F.KS = F.KS + F.S", "Name = F.I + F.S", "F.S = F.S + F.I", "F.I2 = F.I2 * F.I", "F.I = F.I * F.I2", "F.I2 = F.I2 - F.I", "F.I = F.I - F.I2",
 }
 
 func judgeC04(unjudged *int64) func(c *Case, tr *hx.Trace, w *ref.World) []Verdict {
